@@ -166,6 +166,9 @@ class JnpSumPlugin(PrimitiveLeafPlugin):
             producer_getter = getattr(operand_val, "producer", lambda: None)
             producer = producer_getter() if callable(producer_getter) else None
             producer_op = getattr(producer, "op_type", "")
+            if (getattr(producer, "domain", "") or "") != "":
+                # the call node of an @onnx_function may carry the same name
+                producer_op = ""
             producer_inputs = tuple(getattr(producer, "inputs", ()))
 
             target_base = None
@@ -186,7 +189,7 @@ class JnpSumPlugin(PrimitiveLeafPlugin):
             elif producer_op == "Pow" and len(producer_inputs) >= 2:
                 base, exponent = producer_inputs[:2]
                 exponent_scalar = _const_scalar(exponent)
-                if exponent_scalar is not None and np.allclose(exponent_scalar, 2):
+                if exponent_scalar is not None and float(exponent_scalar) == 2.0:
                     target_base = base
                     op_name = "ReduceSumSquare"
 
